@@ -5,6 +5,8 @@ CONSTANTS
   Byz = {3, 4}
   MaxByz = 2
   MaxDup = 1
+  MaxLen = 8
+  Focus = "shares"
   AsCoded = FALSE
 INVARIANT Report
 CHECK_DEADLOCK FALSE
